@@ -124,6 +124,52 @@ CLAIMS = {
         ),
         design_ref="DESIGN.md §4 C17",
     ),
+    "C05": dict(
+        technique="static analysis (narrow): table agreement between state-order tables, operator labels and the documented convention; structural coefficient factorisation; mode-selection guards",
+        text=(
+            "Decides only structural necessary conditions of the Hamiltonian formula: the state order (STATES_RANK/EIGENSTATES) agrees with the documented vector convention and with the drive operator labels "
+            "(sigma_ba for the drive, sigma_aa for the detuning), operators are placed at the register index, the Hamiltonian is symmetrised exactly once and Hermitian terms carry 1/2 (amp: 0.5*amp*exp(-i*phase); det: -0.5*det; "
+            "vdW: 0.5*C6/R^6; XY: C3(1-3cos^2)/R^3 on the exchange product), Global/Local branches build identical coefficients, XY vs vdW selected by the interaction mode, masked pairs skipped only in XY. "
+            "The matrix entries themselves (numeric equality with the formula) are NOT decided."
+        ),
+        design_ref="DESIGN.md §4 C05",
+    ),
+    "C06": dict(
+        technique="static analysis (narrow): sibling-statement agreement (amp/det/phase index ranges), padding modes, mode guards, emptiness-belief contradiction (Engler-style) in the sampling functions",
+        text=(
+            "Decides that amplitude, detuning and phase are accumulated over identical index ranges from the matching sources (schedule -> channel samples -> per-atom dict), that the DMM weight multiplies only the per-atom detuning, "
+            "that duration extension pads at the end (zeros / EOM off-detuning iff the block is open / last phase), that SLM offsets apply only in XY, and that no possibly-empty slot list is indexed with a constant unguarded. "
+            "The every-nanosecond equality between samples and schedule is a runtime array property and is NOT decided."
+        ),
+        design_ref="DESIGN.md §4 C06",
+    ),
+    "C11": dict(
+        technique="static analysis (narrow): annotation-driven array-vs-string comparison rule; measurement-convention table agreement (code vs documented SPAM table); sibling agreement of the two detection-error samplers",
+        text=(
+            "Decides: no value declared as 'array or mode string' is compared to a string literal in a truth context without isinstance(_, str) (otherwise re-creating a config with several evaluation times raises); the state read as 1 "
+            "per basis agrees between QutipResult._weights, State.infer_one_state, EIGENSTATES and the documented table, with the ground-rydberg order reversed exactly once; both samplers flip 1s with the false-negative and 0s with the "
+            "false-positive rate and the legacy names map accordingly. Normalisation, positivity, Rabi oscillations and legacy/V2 agreement are runtime numerics and are NOT decided."
+        ),
+        design_ref="DESIGN.md §4 C11",
+    ),
+    "C16": dict(
+        technique="static analysis (narrow): sibling agreement of parameter forwarding across change_duration/__mul__/serialisers per waveform class; rejection atoms; zero-denominator rule under the class invariant",
+        text=(
+            "Decides that every waveform class forwards its defining parameters (constructor parameters mapped to stored attributes) identically in change_duration, __mul__, _to_dict and _to_abstract_repr, scaling exactly the linear "
+            "parameters; base operations (copying samples, negation, division with zero rejection, equality, index range) keep their shape; non-positive durations, negative amplitudes and unequal durations are rejected; and under "
+            "_duration >= 1 no (_duration - c) denominator is unguarded. Areas, maxima and interpolation values are numeric and NOT decided."
+        ),
+        design_ref="DESIGN.md §4 C16",
+    ),
+    "C20": dict(
+        technique="static analysis (narrow): symbolic truth table of the observable storing condition; literal-dimension rule; sibling agreement of energy moments; result-store guards",
+        text=(
+            "Decides: Observable.__call__ stores iff (own times and t in own) or (no own times and t in default) -- all 6 rows of the truth table; the stochastic branch of the V2 backend sizes its accumulator from the emulator's "
+            "dimension (no literal 2x2); both branches call observables uniformly; Results rejects repeated times and requires ascending times; the variance is the second-moment expression minus the squared mean. "
+            "The numeric values of observables are NOT decided."
+        ),
+        design_ref="DESIGN.md §4 C20",
+    ),
     "C09": dict(
         technique="static analysis: interprocedural write-effect and escaping-raise summaries (ast CFG + call graph with decorator composition), validate-before-mutate ordering rule, read-only effect rule",
         text=(
